@@ -1,0 +1,8 @@
+//go:build !verif
+
+// Package vhook holds the verification hooks; without the build tag "verif" they are empty.
+package vhook
+
+func FSEvent(op, path, path2 string, offset, length int64) {}
+
+func At(point string) {}
